@@ -1,11 +1,12 @@
-\* exhaustive, thorough: 4 connections, 3 in flight
+\* exhaustive, thorough: 4 connections (2 in flight) over 3 keys (32-byte marked, 24-byte marked, 16-byte unmarked; one
+\* secret), replay cache absent / on   (9.1M distinct states)
 SPECIFICATION Spec
 CONSTANTS
-  Keys <- KeysQ
+  Keys <- KeysS
   Conns = {1, 2, 3, 4}
-  CacheModes = {"nil", "zero", "on"}
-  MaxSalt = 8
-  MaxInFlight = 3
+  CacheModes = {"nil", "on"}
+  MaxSalt = 6
+  MaxInFlight = 2
 INVARIANTS TypeOK RespSaltsFresh RespSaltsRecognised ReflectedNeverAuthenticated StatusClasses ProbeNoEffect
 VIEW View
 CHECK_DEADLOCK FALSE
